@@ -59,7 +59,8 @@ REGISTRY: dict[str, dict[str, str]] = {
                      "constant sample constructs, typestate of placeholders and tag adjacency",
         "level": "Decides that the atomic-construct tables agree and cover every construct family of the statement, that "
                  "extraction/restoration and normalise/denormalise are paired on every path, and that the tag post-passes run on "
-                 "every exit. The adjacency separator is not reserved (recorded finding F-08). Recognition of a construct "
+                 "every exit, that the block heuristics ignore container indentation and that no memo of the wrapping layer is under-keyed. "
+                 "The adjacency separator is not reserved (recorded finding F-08). Recognition of a construct "
                  "instance in runtime text is not decided.",
         "note": "Trusted: regex model over-approximates languages; sample spellings are constants of the check.",
         "design_ref": "DESIGN.md §4 C06",
